@@ -34,9 +34,18 @@ type schedSrc struct {
 	sch    rfSched
 	pos, i int
 	probed bool // a call was made after the last byte had been handed out
+	hit    bool // the one failing call of a transient / eofmore schedule has been made
 }
 
+func (s *schedSrc) passing() bool { return s.sch.End == "transient" || s.sch.End == "eofmore" }
+
 func (s *schedSrc) limit() int {
+	if s.passing() {
+		if !s.hit && s.pos <= s.sch.K && s.sch.K < len(s.b) {
+			return s.sch.K // no fragment crosses k before the failing call
+		}
+		return len(s.b)
+	}
 	if (s.sch.End == "err" || s.sch.End == "errdata") && s.sch.K < len(s.b) {
 		return s.sch.K
 	}
@@ -48,6 +57,13 @@ func (s *schedSrc) Len() int { return len(s.b) - s.pos }
 func (s *schedSrc) Read(p []byte) (int, error) {
 	if len(p) == 0 {
 		return 0, nil
+	}
+	if s.passing() && s.pos == s.sch.K && !s.hit {
+		s.hit = true
+		if s.sch.End == "transient" {
+			return 0, errInjected
+		}
+		return 0, io.EOF
 	}
 	lim := s.limit()
 	failing := s.sch.End == "err" || s.sch.End == "errdata"
@@ -119,10 +135,20 @@ func rfParsers() map[string]*rfParser {
 			var outs []string
 			var ends []int
 			d := verifapi.NewCborDecoder(src)
+			ss, _ := src.(*schedSrc)
 			for _, op := range in.ops {
+				p0, h0 := pos(), ss != nil && ss.hit
 				c := decCalls(d, posLen{pos, len(in.b)}, []string{op})[0]
 				if c.Pan {
 					panic("decoder panic")
+				}
+				if c.Err && ss != nil && ss.hit && !h0 && pos() == p0 {
+					// the call met the source's one passing failure and consumed nothing: the caller repeats it
+					// (a decoder polled on a queue, a read retried after a time-out)
+					c = decCalls(d, posLen{pos, len(in.b)}, []string{op})[0]
+					if c.Pan {
+						panic("decoder panic")
+					}
 				}
 				if c.Err {
 					outs = append(outs, "err")
@@ -320,6 +346,9 @@ func rfRun(args []string) error {
 	}
 	var clean, failing []rfSched
 	for _, s := range scheds {
+		if s.End == "eofmore" {
+			continue // an end reported early IS the end for a consumer that reads to the end; used with accessor sequences only (below)
+		}
 		if s.End == "eof" || s.End == "eofdata" {
 			clean = append(clean, s)
 		} else {
@@ -445,6 +474,23 @@ func rfRun(args []string) error {
 					sch := failing[(k*7+j*13+id)%len(failing)]
 					sch.K = k
 					emitOne(sch)
+				}
+			}
+			// a failure that passes (one call fails, the next ones continue), at every boundary between two accessor calls
+			// and inside items
+			if p.seq != nil {
+				ks := map[int]bool{0: true}
+				for _, e := range cends {
+					ks[e] = true
+					ks[e+1] = true
+				}
+				for k := 0; k <= len(in.b); k++ {
+					if !ks[k] && k%5 != 0 {
+						continue
+					}
+					for j, end := range []string{"transient", "eofmore"} {
+						emitOne(rfSched{Pat: [][]int{{99}, {1}, {2, 0, 1}, {3, 1}}[(k+j)%4], End: end, K: k})
+					}
 				}
 			}
 		}
